@@ -281,6 +281,7 @@ let () =
        let a = List.filter (fun s -> s <> "") (split_on ' ' line) in
        match a with
        | [] -> ()
+       | x :: _ when String.length x > 0 && x.[0] = '#' -> ()
        | "case" :: _ ->
          if !started then flush_case ();
          started := true;
